@@ -362,6 +362,11 @@ def slotOf (kc : KeyCache) (m : KeyMeta) : Option Nat :=
   let i := kc.slots.findIdx (· = m)
   if i < kc.slots.length then some i else none
 
+/-- release a list of keys in order (eviction callbacks, `Close`). -/
+def releaseAll : List Nat → M Unit
+  | [] => pure ()
+  | v :: rest => do keyRelease v; releaseAll rest
+
 /-- `c.keys.Get(id)` (bounded: also touches the policy's recency/frequency bookkeeping). -/
 def cacheGet (c : Nat) (m : KeyMeta) : M (Option CEntry) := do
   let kc ← getCache c
@@ -393,7 +398,7 @@ def cacheSet (c : Nat) (m : KeyMeta) (e : CEntry) : M Unit := do
     let ents := evicted.foldl (fun acc em => assocDel acc em) kc.ents
     let victims := evicted.filterMap fun em => (assocGet kc.ents em).map (·.obj)
     setCache c { kc with pol := o.cache, ents := assocSet ents m e }
-    for v in victims do keyRelease v
+    releaseAll victims
 
 def getLatestMeta (kc : KeyCache) (k : KeyId) : Option KeyMeta := assocGet kc.latest k
 
@@ -516,13 +521,13 @@ def cacheClose (c : Nat) : M Unit := do
   let kc ← getCache c
   match kc.mode with
   | .never => pure ()
-  | .simple => for (_, e) in kc.ents do keyRelease e.obj
+  | .simple => releaseAll (kc.ents.map (·.2.obj))
   | .bounded =>
     let o := Cache.step kc.pol .close (fun _ => false)
     let evicted := o.cbs.filterMap fun (k, _) => kc.slots[k]?
     let victims := evicted.filterMap fun em => (assocGet kc.ents em).map (·.obj)
     setCache c { kc with pol := o.cache, ents := [] }
-    for v in victims do keyRelease v
+    releaseAll victims
 
 /-! ### envelope.go -/
 
@@ -758,21 +763,28 @@ def sessionCtx (w : World) (s : Nat) : Ctx :=
   let fac := w.facs.getD ss.fac default
   { pol := fac.pol, part := ss.part, skCache := fac.skCache, ikCache := ss.ikCache }
 
-/-- `Session.Close` → `envelopeEncryption.Close`. -/
+/-- `Session.Close` → `envelopeEncryption.Close`. The `closed` flag is a ghost (Go keeps none):
+the properties only speak about operations on sessions and factories that are still open. -/
 def closeSession (s : Nat) : M Unit := do
   let w ← get
   let ss := w.sessions.getD s default
   let fac := w.facs.getD ss.fac default
+  modify fun w => { w with sessions := setAt w.sessions s fun x => { x with closed := true } }
   if fac.pol.sharedIK then pure () else cacheClose ss.ikCache
 
 /-- `SessionFactory.Close`. -/
 def closeFactory (f : Nat) : M Unit := do
   let w ← get
   let fac := w.facs.getD f default
+  modify fun w => { w with facs := setAt w.facs f fun x => { x with closed := true } }
   match fac.sharedIk with
   | some c => cacheClose c
   | none => pure ()
   cacheClose fac.skCache
+
+/-- a session on which the property statements still speak: neither it nor its factory is closed. -/
+def sessionOpen (w : World) (s : Nat) : Prop :=
+  ∃ ss, w.sessions[s]? = some ss ∧ ss.closed = false ∧ ∃ fac, w.facs[ss.fac]? = some fac ∧ fac.closed = false
 
 /-! ### environment operations -/
 
@@ -781,7 +793,7 @@ def revoke (m : KeyMeta) : M Unit :=
   modify fun w => { w with store := w.store.map fun r =>
     if r.kid = m.kid ∧ r.created = m.created then { r with revoked := true } else r }
 
-def advance (d : Int) : M Unit := modify fun w => { w with now := w.now + d }
+def advance (d : Nat) : M Unit := modify fun w => { w with now := w.now + d }
 
 /-- public operations reset the per-operation call log and install the fault schedule. -/
 def beginOp (faults : List Fault) : M Unit := modify fun w => { w with log := [], faults := faults }
@@ -795,6 +807,62 @@ def decrypt (s : Nat) (d : Drr) (faults : List Fault) (releaseLoaded : Bool) : M
   beginOp faults
   let w ← get
   decryptDataRowRecord (sessionCtx w s) d releaseLoaded
+
+/-! ### histories: the operations a caller and the environment can perform -/
+
+/-- `fixLeak` = whether `intermediateKeyFromEKR` releases the extra system key reference
+(true for the current tree; kept as a parameter so the pre-repair behaviour stays expressible). -/
+inductive Op
+  | newFactory (p : Policy) (skPc skWc ikPc ikWc : Nat)
+  | getSession (f part ikPc ikWc : Nat)
+  | encrypt (s payload : Nat) (faults : List Fault)
+  | decrypt (s : Nat) (d : Drr) (faults : List Fault)
+  | closeSession (s : Nat)
+  | closeFactory (f : Nat)
+  | advance (d : Nat)
+  | revoke (m : KeyMeta)
+  | corruptRow (m : KeyMeta) (dropParent : Bool)     -- out-of-band damage to a stored row (C07)
+deriving Repr, Inhabited
+
+inductive Out
+  | unit
+  | id (n : Nat)
+  | record (d : Drr)
+  | payload (p : Nat)
+  | error (e : Err)
+deriving Repr, Inhabited, DecidableEq
+
+def corruptRow (m : KeyMeta) (dropParent : Bool) : M Unit :=
+  modify fun w => { w with store := w.store.map fun r =>
+    if r.kid = m.kid ∧ r.created = m.created then
+      (if dropParent then { r with parent := none } else { r with enc := .junk 2 }) else r }
+
+def applyOp (w : World) (op : Op) : Out × World :=
+  let wrap {α : Type} (f : α → Out) (r : Except Err α × World) : Out × World :=
+    match r with
+    | (.ok a, w') => (f a, w')
+    | (.error e, w') => (.error e, w')
+  match op with
+  | .newFactory p a b c d => wrap Out.id (newFactory p a b c d w)
+  | .getSession f part c d => wrap Out.id (getSession f part c d w)
+  | .encrypt s pay fl => wrap Out.record (encrypt s pay fl true w)
+  | .decrypt s d fl => wrap Out.payload (decrypt s d fl true w)
+  | .closeSession s => wrap (fun _ => Out.unit) ((do beginOp []; closeSession s) w)
+  | .closeFactory f => wrap (fun _ => Out.unit) ((do beginOp []; closeFactory f) w)
+  | .advance d => wrap (fun _ => Out.unit) (advance d w)
+  | .revoke m => wrap (fun _ => Out.unit) (revoke m w)
+  | .corruptRow m dp => wrap (fun _ => Out.unit) (corruptRow m dp w)
+
+/-- run a history from a world, collecting the outputs. -/
+def runOps (w : World) : List Op → List Out × World
+  | [] => ([], w)
+  | op :: rest =>
+    let (o, w') := applyOp w op
+    let (os, w'') := runOps w' rest
+    (o :: os, w'')
+
+/-- the initial world at virtual time `t`. -/
+def World.init (t : Int) : World := { now := t }
 
 /-! ### observables -/
 
